@@ -228,15 +228,15 @@ func (p *c05Probe) class() string {
 	s := p.AlgName
 	switch {
 	case len(p.Backends) == 0:
-		s += ",empty-list"
+		s += ":empty-list"
 	case neg && !pick:
-		s += ",available-negative-weight-and-nothing-pickable"
+		s += ":available-negative-weight-and-nothing-pickable"
 	case neg:
-		s += ",available-negative-weight"
+		s += ":available-negative-weight"
 	case pick:
-		s += ",pickable"
+		s += ":pickable"
 	default:
-		s += ",nothing-pickable"
+		s += ":nothing-pickable"
 	}
 	return s
 }
@@ -366,7 +366,7 @@ func c05Sequential(st *c05State, probes []*c05Probe) (wait func()) {
 						continue
 					}
 					p := b.ps[cur]
-					st.suspect(&c05Suspect{Class: "sequential," + b.class, done: b.done, gids: []int64{atomic.LoadInt64(&b.gid)},
+					st.suspect(&c05Suspect{Class: "sequential:" + b.class, done: b.done, gids: []int64{atomic.LoadInt64(&b.gid)},
 						Witness: map[string]interface{}{"probe": p, "single_threaded": true, "skipped_probes_of_class": len(b.ps) - int(cur) - 1}})
 					r.Count("sequential_probes_behind_a_suspected_hang", int64(len(b.ps)-int(cur)-1))
 				}
@@ -464,7 +464,7 @@ func minInt(a, b int) int {
 // suspected to hang (its goroutines are then abandoned).
 func c05Run(st *c05State, h *c05Hist) bool {
 	r := st.r
-	class := "concurrent," + h.Family
+	class := "concurrent:" + h.Family
 	ptrs := &c05Ptrs{m: map[*backend.BfeBackend]bool{}}
 	var brr *bal_slb.BalanceRR
 	var bal *bal_gslb.BalanceGslb
@@ -721,7 +721,7 @@ func c05Drain(st *c05State, idx int) bool {
 		r.Count("drain_trials", 1)
 		return true
 	case <-time.After(6 * time.Second):
-		st.suspect(&c05Suspect{Class: "concurrent,WrrSimple,all-backends-marked-unavailable-during-rescan", done: done, gids: []int64{atomic.LoadInt64(&gidA)},
+		st.suspect(&c05Suspect{Class: "concurrent:WrrSimple:all-backends-marked-unavailable-during-rescan", done: done, gids: []int64{atomic.LoadInt64(&gidA)},
 			frozen: func() interface{} {
 				var out []string
 				for _, b := range bks {
@@ -771,7 +771,7 @@ func c05(r *vkit.Run) {
 		for _, G := range []int{4, 16, 64} {
 			for k := 0; k < perCell; k++ {
 				idx++
-				class := "concurrent," + fam
+				class := "concurrent:" + fam
 				if st.isHung(class) {
 					r.Count("histories_skipped_after_hang", 1)
 					continue
